@@ -645,7 +645,7 @@ class Exec(ExprMixin, HeapMixin, StmtMixin, CallMixin, BuiltinMixin):
             goal = self.ev_spec(r, fin)
             self.oblige(fin, goal, f"ensures[{k}]", "exit", None, note=r)
         for exc, cond in c.raises.items():
-            if cond is not None:
+            if cond is not None and not cond.startswith("?"):
                 tmp = entry.copy()
                 tmp.pc = list(fin.pc)
                 goal = z3.Not(self.ev_spec(cond, tmp))
@@ -669,7 +669,7 @@ class Exec(ExprMixin, HeapMixin, StmtMixin, CallMixin, BuiltinMixin):
         if cond is not None:
             tmp = entry.copy()
             tmp.pc = list(st.pc)
-            goal = self.ev_spec(cond, tmp)
+            goal = self.ev_spec(cond.lstrip("?"), tmp)
             self.oblige(st, goal, f"raises[{allowed}].when", oc.site, None, note=cond)
         for k, r in enumerate(c.raise_ensures.get(allowed, [])):
             self.spec_old_state = entry
